@@ -21,7 +21,7 @@ ASSUMPTIONS = ["invalid_disparity values are float32-representable (the map is f
 GATES = {
     "two_blocks_both_axes_with_tie_and_allnan_in_later_block": 1,
     "nan_invalid_disparity": 1, "more_than_256_disparity_samples": 1,
-    "max_type_with_ties": 1, "volume_with_infinite_costs": 3, "volume_is_a_window_of_a_larger_buffer": 3, "volume_in_the_matching_cost_layout": 3,
+    "max_type_with_ties": 1, "volume_computed_with_a_window_larger_than_1": 3, "volume_with_infinite_costs": 3, "volume_is_a_window_of_a_larger_buffer": 3, "volume_in_the_matching_cost_layout": 3,
     "all_27_patterns_D3": 1,
     "pipeline_disparity_steps": 5,
     "pixels_judged": 100000,
@@ -208,7 +208,11 @@ def run_case(case, ctx):
             big = np.full((rows + 2, cols + 3, nd + 2), np.float32(7.0))
             big[1:-1, 2:-1, 1:-1] = costs
             costs = big[1:-1, 2:-1, 1:-1]
-        cv = gen.make_cv(costs, disps, tm, subpix=subpix, validity=validity, conf=conf, conf_names=names)
+        # the window the volume was computed with (offset_row_col = its radius): flags and costs of the border rows / columns
+        # are whatever the producer of the volume put there, and must be carried over like the others
+        wsz = [1, 3, 5, 1][(case["j"] + rows + cols) % 4] if min(rows, cols) >= 5 else 1
+        cv = gen.make_cv(costs, disps, tm, window_size=wsz, subpix=subpix, validity=validity, conf=conf, conf_names=names)
+        ctx.gate("volume_computed_with_a_window_larger_than_1", int(wsz > 1))
         if layout != "C" and cv["cost_volume"].data.flags["C_CONTIGUOUS"] and sum(int(n_ > 1) for n_ in (rows, cols, nd)) >= 2:
             ctx.inconclusive.append(f"layout {layout} was lost when the dataset was built")
         ctx.gate("volume_is_a_window_of_a_larger_buffer", int(layout == "window" and nan_kind != "none"))
